@@ -31,7 +31,7 @@ def reset() -> None:
 
 
 def canon_val(v):
-    """canonical JSON-able form: tuples and arrays as lists, numpy scalars as Python, floats exact."""
+    """canonical JSON-able form: tuples and arrays as lists, numbers by exact value (1 == 1.0)."""
     if isinstance(v, np.generic):
         v = v.item()
     if isinstance(v, np.ndarray):
@@ -43,10 +43,10 @@ def canon_val(v):
     if isinstance(v, bool) or v is None or isinstance(v, str):
         return v
     if isinstance(v, int):
-        return v
+        return {"f": [v, 1]}
     if isinstance(v, float):
-        if v == int(v) and abs(v) < 2**53:
-            return {"f": [int(v), 1]}
+        if v != v or v in (float("inf"), float("-inf")):
+            return {"f": repr(v)}
         from fractions import Fraction
 
         f = Fraction(v)
